@@ -233,11 +233,12 @@ def lockstep_worker(ctx, job):
         fh.write(ref.gen(D1["n"], D1["tag"]))
     t_start = int(time.time() * 1000) - 5
     window = (t_start, t_start + 10 ** 8)
-    seen = set()
-    stack = [([job["first"]], [None, None, None])]
-    # iterative DFS: each node = (program, snapshots before its last action)
+    seen = {}
+    import collections
+    stack = collections.deque([([job["first"]], [None, None, None])])
+    # breadth-first (a state is first reached by a shortest program): each node = (program, snapshots before its last action)
     while stack:
-        prog, snaps = stack.pop()
+        prog, snaps = stack.popleft()
         act = prog[-1]
         results = []
         new_snaps = []
@@ -264,16 +265,19 @@ def lockstep_worker(ctx, job):
         V.outcome(res, "%s:%s" % (act, results[0][0][0] + ":" + (results[0][0][1] if results[0] and results[0][0][0] in ("err", "abnormal") else "") if results[0] else "damage"))
         key = (repr(sorted(views[0].items(), key=repr)), repr(sorted(views[1].items(), key=repr)), repr(sorted(views[2].items(), key=repr)))
         hk = V.h(key)
-        if hk in seen and len(prog) > 1:
+        # depth-first order reaches a state first at the END of some long program; it must still be expanded when a
+        # shorter program reaches it later, so the depth at which it was expanded is part of the bookkeeping
+        if seen.get(hk, 10 ** 9) <= len(prog) and len(prog) > 1:
             continue
-        seen.add(hk)
-        res["states"] += 1
+        if hk not in seen:
+            res["states"] += 1
+        seen[hk] = len(prog)
         if len(prog) < depth:
             for a in ACTIONS:
                 stack.append((prog + [a], new_snaps))
     for c in caches:
         fsutil.wipe(c)
-    res["distinct"] = seen
+    res["distinct"] = set(seen)
     res["samples"].append({"first_action": job["first"], "depth": depth, "programs_run": res["evals"]})
     return res
 
